@@ -22,6 +22,24 @@ CHECKS = {
     text="Generated metamorphic pairs (bare==true, false==omitted, option order, variant==option shorthand) over generated fn/mod/trait items and duplicate-free option sets, compared by exact token equality, plus the documented acceptance matrix (each option accepted on its documented targets, rejected elsewhere). Exploration over ~100k pairs quick / 2M thorough.",
     note="The crate-feature half of the statement is modelled in E1 by the `_unimock` macro variants (what the facade selects); the facade's own feature->variant mapping is observed through compiled clients in C10. Don't-cares: `no_deps` on a module, `debug`.",
     design="§2 C17"),
+ "C08": dict(
+    technique="property-based testing: generated modules with decoy items, generator-side ground truth for the method list, syn-parsed trait of the expansion as observation",
+    engine="E1",
+    text="Generated modules (0..8 items: visible fns with every qualifier/visibility spelling, private fns, body-less declarations, decoys containing `fn` tokens) with the expected method list computed from the generator's spec; the trait of the requested name inside the emitted module must list exactly those methods in order, and the re-export after the module must carry exactly the requested visibility. 150k quick / 3M thorough cases.",
+    note="The expected list comes from the generator's own record of what it emitted, never from the macro; the import is observed at token level here (the compiled-client leg is planned under E2).",
+    design="§2 C08"),
+ "C09": dict(
+    technique="property-based testing: generated trait definitions, structural diff (syn) of the input trait against the same-named trait of the expansion, modulo the documented async rewrite",
+    engine="E1",
+    text="Generated traits with attributes/docs, unsafe, generics, supertraits, where clauses, default bodies, associated types and async methods crossed with all trait-mode option sets; field-by-field comparison in both directions (nothing lost, nothing but owned mock attributes added). The two differences recorded as open known findings are tolerated exactly and probed separately.",
+    note="syn's parse/print round trip is trusted for both sides of the diff; what `owned mock attribute` means is fixed syntactically (path ends in unimock/automock, possibly inside cfg_attr(test, ..)) and excludes attributes the user wrote.",
+    design="§2 C09"),
+ "C20": dict(
+    technique="property-based testing over histories: one generated corpus expanded under permutations, repetitions, threads and perturbed child processes; oracle = per-key equality of outputs",
+    engine="E1",
+    text="A generated corpus (6k quick / 60k thorough distinct invocations) is expanded in baseline order, reversed, under 4 permutations, tripled/interleaved, from 4 threads and in >=6 fresh child processes with their own order, cleared/perturbed environment and working directory (plus every environment variable name found in the macro source, over a value matrix); every history must give the baseline's tokens for every key.",
+    note="Cannot see non-determinism that needs a machine state none of the histories produces (a specific env var value, wall clock thresholds); children share the binary, so build-time non-determinism is out of scope.",
+    design="§2 C20"),
 }
 
 NOT_YET = "check not built yet (build in progress; see DESIGN.md §2 for the planned oracle)"
